@@ -5,6 +5,8 @@ import obl_phonetic
 
 
 def run(c):
+    import clauses
+    c.only_clauses = clauses.OWN["C03"]
     obl_kani.run(c, ["k_keycode_table"])
     obl_phonetic.obl_split(c, 4 if c.tier == "quick" else 5, budget_s=900)
     A.obl_only_phonetic(c, 3 if c.tier == "quick" else 4, budget_s=900)
